@@ -127,64 +127,158 @@ def r16_2(ctx):
 
 
 def r16_3(ctx):
-    ctx.rule("R16.3", "abbreviation counts: the omitted-item count is num_items - N with the same N that bounds islice and num_items = len(obj); the omitted-character count is len(obj) - N with the same N that slices the string; both only when the size exceeds N")
+    from ..astutil import inline, single_defs
+    from ..yieldpaths import canon_test
+    ctx.rule("R16.3", "abbreviation counts: the omitted-item count is num_items - N with the same N that bounds islice (wherever in traverse the islice is written) and num_items = len(obj); the omitted-character count is len(obj) - N with the same N that slices the string; both only when the size exceeds N")
     m = ctx.repo.mod("pretty")
     f = m.functions.get("traverse.<locals>._traverse")
     tr = m.functions.get("traverse.<locals>.to_repr")
     if f is None or tr is None:
         raise AnchorVanished("pretty.traverse inner functions not found")
-    islices = [c for c in walk_local(f.node) if isinstance(c, ast.Call) and call_name(c) == "islice"]
-    ctx.floor(len(islices), 2, "islice sites")
+    # islice calls anywhere inside traverse (its nested helpers included)
+    outer = m.functions.get("traverse")
+    islices = [c for c in ast.walk(outer.node) if isinstance(c, ast.Call) and call_name(c) == "islice"]
+    ctx.floor(len(islices), 1, "islice sites")
     bounds = {norm(c.args[1]) for c in islices if len(c.args) == 2}
+    ctx.check(len(bounds) == 1 and all(len(c.args) == 2 for c in islices), f.fq, f"islice bounds {sorted(bounds)}", f.where, f"every islice is bounded by `{sorted(bounds)}` (stop only, no start/step)",
+              f"the children shown are limited by islice with bounds {sorted(bounds)} / extra start-step arguments: containers are cut at different lengths")
+    fd = single_defs(f.node)
     found = False
-    for n in walk_local(f.node):
-        if isinstance(n, ast.If) and "num_items >" in norm(n.test):
-            for x in ast.walk(n):
-                if isinstance(x, ast.JoinedStr):
-                    parts = fstring_parts(x)
-                    fields = [p for p in parts if isinstance(p, tuple)]
-                    if fields:
-                        found = True
-                        expr = fields[0][1]
-                        ok = isinstance(expr, ast.BinOp) and isinstance(expr.op, ast.Sub) and norm(expr.left) == "num_items" and {norm(expr.right)} == bounds
-                        ok = ok and f"num_items > {norm(expr.right)}" in norm(n.test)
-                        ctx.check(ok, f.fq, short(x), f"{m.relpath}:{x.lineno}", f"omitted items = num_items - {sorted(bounds)} (the islice bound), only when exceeded",
-                                  f"the abbreviation marker reports `{norm(expr)}` omitted items, but the items shown are limited by islice(..., {sorted(bounds)}): the count does not match what was left out")
+
+    def enclosing_facts(fn, node, defs):
+        """branch facts of every `if` whose true-branch encloses the node"""
+        facts = {}
+        cur, child = m.parent_of.get(node), node
+        while cur is not None and cur is not fn.node:
+            if isinstance(cur, ast.If) and any(child is b for b in cur.body):
+                facts.update(dict(canon_test(inline(cur.test, defs), True)))
+            cur, child = m.parent_of.get(cur), cur
+        return facts
+    for x in walk_local(f.node):
+        if isinstance(x, ast.JoinedStr):
+            parts = fstring_parts(x)
+            fields = [p_ for p_ in parts if isinstance(p_, tuple)]
+            lits = "".join(p_ for p_ in parts if isinstance(p_, str))
+            if fields and "+" in lits:
+                found = True
+                facts = enclosing_facts(f, x, fd)
+                expr = inline(fields[0][1], fd)
+                ok = isinstance(expr, ast.BinOp) and isinstance(expr.op, ast.Sub) and norm(expr.left) == "len(obj)" and {norm(expr.right)} == bounds
+                ok = ok and (facts.get(f"len(obj) > {norm(expr.right)}") is True or facts.get(f"{norm(expr.right)} < len(obj)") is True)
+                ctx.check(ok, f.fq, short(x), f"{m.relpath}:{x.lineno}", f"omitted items = len(obj) - {sorted(bounds)} (the islice bound), only when exceeded",
+                          f"the abbreviation marker reports `{norm(expr)}` omitted items, but the items shown are limited by islice(..., {sorted(bounds)}) of len(obj) items (or the marker is not guarded by len(obj) > that bound): the count does not match what was left out")
     ctx.check(found, f.fq, "abbreviation marker", f.where, "abbreviation marker present", "no '... +N' marker is appended when max_length cuts the container")
-    ok = any(isinstance(n, ast.Assign) and norm(n.targets[0]) == "num_items" and norm(n.value) == "len(obj)" for n in walk_local(f.node))
-    ctx.check(ok, f.fq, "num_items = len(obj)", f.where, "num_items is the container's size", "num_items is not len(obj)")
     # strings
-    src = norm(tr.node)
+    td = single_defs(tr.node)
     ok = False
-    for n in walk_local(tr.node):
-        if isinstance(n, ast.If) and "len(obj) > max_string" in norm(n.test):
-            body = " ; ".join(norm(b) for b in n.body)
-            ok = "truncated = len(obj) - max_string" in body and "obj[:max_string]!r" in body and "+{truncated}" in body
+    for x in walk_local(tr.node):
+        if isinstance(x, ast.JoinedStr):
+            facts = enclosing_facts(tr, x, td)
+            if facts.get("len(obj) > max_string") is not True:
+                continue
+            parts = fstring_parts(x)
+            fields = [norm(inline(p_[1], td)) for p_ in parts if isinstance(p_, tuple)]
+            lits = "".join(p_ for p_ in parts if isinstance(p_, str))
+            if sorted(fields) == sorted(["obj[:max_string]", "len(obj) - max_string"]) and "+" in lits:
+                ok = True
     ctx.check(ok, tr.fq, "string abbreviation", tr.where, "omitted characters = len(obj) - max_string with obj[:max_string] shown", "the string abbreviation does not report len(obj) - max_string characters for the obj[:max_string] prefix it shows")
 
 
+def _strip_key(em):
+    """emissions without the `key: ` prefix of mapping items"""
+    if len(em) >= 2 and em[0] == ("yield", "self.key_repr") and em[1] == ("yield", "': '"):
+        return em[2:], True
+    return em, False
+
+
 def r16_4(ctx):
-    ctx.rule("R16.4", "one-element tuples keep their trailing comma in both serialisers of Node.children: Node.iter_tokens (inline) and _Line.expand (expanded) both test is_tuple and len(children) == 1 and emit ','")
+    from ..yieldpaths import Unsupported, emissions, paths_of, select, show
+    ctx.rule("R16.4", "both serialisers of Node.children agree on the grammar (decided on the path normal form, so guard clauses / else branches / temporaries / conditional expressions are the same thing): Node.iter_tokens emits open, child0, ',', close for a one-element tuple and open, children separated by ', ' (none after the last), close otherwise, 'key: ' before mapping items; _Line.expand gives the single element of a tuple the suffix ',' and every other child its own separator")
     m = ctx.repo.mod("pretty")
     it = m.fn("Node.iter_tokens")
     ex = m.fn("_Line.expand")
-    ok = False
-    for n in walk_local(it.node):
-        if isinstance(n, ast.If) and "is_tuple" in norm(n.test) and "len(self.children) == 1" in norm(n.test):
-            ok = any(isinstance(y, ast.Yield) and isinstance(y.value, ast.Constant) and y.value.value == "," for b in n.body for y in ast.walk(b))
-    ctx.check(ok, it.fq, "if self.is_tuple and len(self.children) == 1: ... yield ','", it.where, "inline form of a 1-tuple ends with a comma", "Node.iter_tokens no longer adds the trailing comma for a one-element tuple: (1,) prints as (1), which evaluates to an int")
-    src = norm(ex.node)
-    ok = "tuple_of_one = node.is_tuple and len(node.children) == 1" in src and "',' if tuple_of_one else child.separator" in src
-    ctx.check(ok, ex.fq, "tuple_of_one", ex.where, "expanded form of a 1-tuple keeps the comma after its element", "_Line.expand no longer gives the single element of a tuple its trailing comma")
-    # separators between children: ', ' unless last
-    ok = False
-    for n in walk_local(it.node):
-        if isinstance(n, ast.For) and norm(n.iter) == "self.children":
-            body = " ; ".join(norm(b) for b in n.body)
-            ok = "yield from child.iter_tokens()" in body and "if not child.last" in body and "yield ', '" in body
-    ctx.check(ok, it.fq, "children separated by ', '", it.where, "children are emitted in order separated by ', ' (none after the last)", "Node.iter_tokens does not emit every child in order separated by ', '")
+    try:
+        P = paths_of(it.node)
+        PX = paths_of(ex.node)
+    except Unsupported as u:
+        raise AnalysisError(f"pretty: iter_tokens/expand use a statement the path normal form does not cover ({u}); the grammar clause cannot be decided")
+    base = {"self.value_repr": False, "self.children is None": False, "self.children": True}
+    one = dict(base, **{"self.is_tuple": True, "len(self.children) == 1": True})
+    want_one = [("yield", "self.open_brace"), ("yieldfrom", "self.children[0].iter_tokens()"), ("yield", "','"), ("yield", "self.close_brace")]
+    sel = select(P, one)
+    ok = bool(sel)
+    bad = None
+    for p in sel:
+        em, _ = _strip_key([e for e in emissions(p) if e[0] != "return"])
+        if em != want_one:
+            ok, bad = False, p
+    ctx.check(ok, it.fq, show(bad) if bad else "tuple of one", it.where, f"inline form of a 1-tuple is open, element, ',', close on all {len(sel)} paths",
+              "Node.iter_tokens no longer adds the trailing comma for a one-element tuple: (1,) prints as (1), which evaluates to an int" + (f" [path: {show(bad)}]" if bad else ""))
+    body_last = (("yieldfrom", "child.iter_tokens()"),)
+    body_more = (("yieldfrom", "child.iter_tokens()"), ("yield", "', '"))
+    n_multi = 0
+    for scen in (dict(base, **{"self.is_tuple": False}), dict(base, **{"self.is_tuple": True, "len(self.children) == 1": False})):
+        sel = select(P, scen)
+        ok = bool(sel)
+        bad = None
+        for p in sel:
+            n_multi += 1
+            em, _ = _strip_key([e for e in emissions(p) if e[0] != "return"])
+            good = len(em) == 3 and em[0] == ("yield", "self.open_brace") and em[2] == ("yield", "self.close_brace") and em[1][0] == "loop" and em[1][1] == "child" and em[1][2] == "self.children"
+            if good:
+                bodies = em[1][3]
+                last = select(bodies, {"child.last": True})
+                more = select(bodies, {"child.last": False})
+                good = bool(last) and bool(more) and all(tuple(emissions(b)) == body_last for b in last) and all(tuple(emissions(b)) == body_more for b in more)
+            if not good:
+                ok, bad = False, p
+        ctx.check(ok, it.fq, show(bad) if bad else "children loop", it.where, "children are emitted in order separated by ', ' (none after the last) between the braces",
+                  "Node.iter_tokens does not emit every child in order separated by ', ' between the braces" + (f" [path: {show(bad)}]" if bad else ""))
     # mapping keys
-    ctx.check("yield self.key_repr" in norm(it.node) and "yield ': '" in norm(it.node), it.fq, "key: value", it.where, "dict items print as key: value", "dict items are no longer emitted as `key: value`")
+    sel_k = select(P, {"self.key_repr": True})
+    sel_n = select(P, {"self.key_repr": False})
+    ok = bool(sel_k) and all(_strip_key(emissions(p))[1] for p in sel_k) and all(not _strip_key(emissions(p))[1] for p in sel_n)
+    ctx.check(ok, it.fq, "key: value", it.where, "dict items print as key: value", "dict items are no longer emitted as `key: value` (exactly when the node has a key)")
+    # empty container and atom
+    sel_e = select(P, {"self.value_repr": False, "self.children is None": False, "self.children": False})
+    ok = bool(sel_e) and all(_strip_key([e for e in emissions(p) if e[0] != "return"])[0] == [("yield", "self.empty")] for p in sel_e)
+    ctx.check(ok, it.fq, "yield self.empty", it.where, "an empty container prints its `empty` form", "an empty container no longer prints as its `empty` form")
+    sel_a = select(P, {"self.value_repr": True})
+    ok = bool(sel_a) and all(_strip_key([e for e in emissions(p) if e[0] != "return"])[0] == [("yield", "self.value_repr")] for p in sel_a)
+    ctx.check(ok, it.fq, "yield self.value_repr", it.where, "an atom prints its repr only", "a node with a value_repr no longer prints exactly that repr")
+
+    # _Line.expand: the per-child suffix
+    def suffix_of(ev):
+        try:
+            c = ast.parse(ev[1], mode="eval").body
+        except SyntaxError:
+            return None, None
+        if isinstance(c, ast.Call) and norm(c.func) == "_Line":
+            kw = {k.arg: norm(k.value) for k in c.keywords}
+            return kw.get("node"), kw.get("suffix", "''")
+        return None, None
+    n_child = 0
+    okx = bool(PX)
+    badx = None
+    for p in PX:
+        loops = [e for e in p if e[0] == "loop" and e[2] in ("self.node.children", "node.children")]
+        if len(loops) != 1:
+            okx, badx = False, p
+            continue
+        var = loops[0][1]
+        T = {"self.node.is_tuple": True, "len(self.node.children) == 1": True, "node.is_tuple": True, "len(node.children) == 1": True}
+        for scen, want in ((T, "','"), ({"self.node.is_tuple": False, "node.is_tuple": False}, f"{var}.separator"), ({"len(self.node.children) == 1": False, "len(node.children) == 1": False}, f"{var}.separator")):
+            sel = select(loops[0][3], scen)
+            if not sel:
+                okx, badx = False, p
+            for b in sel:
+                ys = [e for e in b if e[0] == "yield"]
+                n_child += 1
+                if len(ys) != 1 or suffix_of(ys[0]) != (var, want):
+                    okx, badx = False, p
+    ctx.check(okx, ex.fq, show(badx)[:300] if badx else "child suffix", ex.where, "expanded form: the single element of a tuple gets ',' and every other child its own separator",
+              "_Line.expand no longer gives the single element of a tuple its trailing comma (or other children their separator)")
+    ctx.floor(n_child + n_multi, 4, "grammar paths in iter_tokens / expand")
 
 
 def r16_5(ctx):
